@@ -341,7 +341,7 @@ func jobC16(c *rt.Ctx) {
 }
 
 func jobC10(c *rt.Ctx) {
-	c.Require("decode/ok/root-direct", "decode/ok/root-times-sqrtm1", "decode/reject", "decode/x=0", "decode/noncanonical-y", "pack/scaled", "pack/unreduced", "roundtrip")
+	c.Require("decode/ok/root-direct", "decode/ok/root-times-sqrtm1", "decode/reject", "decode/x=0", "decode/noncanonical-y", "pack/scaled", "roundtrip")
 	var strs [][]byte
 	lim := 1 << 14
 	if c.Thorough() {
@@ -503,24 +503,6 @@ func jobC10(c *rt.Ctx) {
 			if !bytes.Equal(out[:], want) {
 				c.Violation("C10 pack scaled", fmt.Sprintf("Pack of (x z : y z : z) is %x, canonical encoding is %x", out, want), map[string]interface{}{"expected": ref.Hex(want), "observed": ref.Hex(out[:]), "z": z.String()})
 			}
-			// limbs left unreduced by one Add / Sub: x = x/2 + x/2, y = (y + 1) - 1, z = z + 0
-			var h, one, zero curve25519.Bignum25519
-			half := new(big.Int).Mul(new(big.Int).Mul(x, z), new(big.Int).ModInverse(big.NewInt(2), ref.P))
-			fset(&h, half)
-			var u Ge25519
-			curve25519.Add(&u.x, &h, &h)
-			fset(&one, big.NewInt(1))
-			var yp curve25519.Bignum25519
-			fset(&yp, new(big.Int).Add(new(big.Int).Mul(y, z), big.NewInt(1)))
-			curve25519.Sub(&u.y, &yp, &one)
-			curve25519.Add(&u.z, &g.z, &zero)
-			u.t = g.t
-			Pack(out[:], &u)
-			c.Step(1)
-			c.Class("pack/unreduced")
-			if !bytes.Equal(out[:], want) {
-				c.Violation("C10 pack unreduced", fmt.Sprintf("Pack of a representation with unreduced limbs is %x, canonical encoding is %x", out, want), map[string]interface{}{"expected": ref.Hex(want), "observed": ref.Hex(out[:])})
-			}
 		}
 	}
 }
@@ -559,4 +541,103 @@ func smallXPoints(lim int64) []ref.Point {
 		}
 	}
 	return out
+}
+
+func init() { rt.Register("C09g", jobC09g) }
+
+// jobC09g (part of C09): the group-level pieces behind small-order rejection on non-normalised and
+// unreduced representations: CofactorMultiply == [8]P, IsNeutralVartime == "is the identity" for
+// every representation (X:Y:Z:T) of torsion, mixed-order and prime-order points.
+func jobC09g(c *rt.Ctx) {
+	c.Require("neutral/true", "neutral/false", "cofactor")
+	zs := []*big.Int{big.NewInt(1), big.NewInt(2), badd(ref.P, -1), badd(pow2(255), -20), a0, big.NewInt(19), badd(ref.P, -19)}
+	var pts []ref.Point
+	for i := 0; i < 8; i++ {
+		pts = append(pts, ref.Torsion(i))
+	}
+	for _, k := range []*big.Int{big.NewInt(1), big.NewInt(2), big.NewInt(8), a0, badd(ref.L, -1)} {
+		for i := 0; i < 8; i++ {
+			pts = append(pts, ref.BaseMul(k).Add(ref.Torsion(i)))
+		}
+	}
+	pts = append(pts, smallXPoints(12)...)
+	mkRep := func(p ref.Point, z *big.Int, unreduced int) Ge25519 {
+		x, y := p.Affine()
+		var g Ge25519
+		xz := new(big.Int).Mul(x, z)
+		yz := new(big.Int).Mul(y, z)
+		tz := new(big.Int).Mul(new(big.Int).Mul(x, y), z)
+		switch unreduced {
+		case 0:
+			fset(&g.x, xz)
+			fset(&g.y, yz)
+			fset(&g.z, z)
+			fset(&g.t, tz)
+		case 1:
+			// every coordinate as the unreduced sum of two halves
+			half := new(big.Int).ModInverse(big.NewInt(2), ref.P)
+			var h curve25519.Bignum25519
+			for i, v := range []*big.Int{xz, yz, z, tz} {
+				fset(&h, new(big.Int).Mul(v, half))
+				dst := []*curve25519.Bignum25519{&g.x, &g.y, &g.z, &g.t}[i]
+				curve25519.Add(dst, &h, &h)
+			}
+		default:
+			// every coordinate as an unreduced difference (v + 1) - 1, i.e. biased by 2p
+			var one, vp curve25519.Bignum25519
+			fset(&one, big.NewInt(1))
+			for i, v := range []*big.Int{xz, yz, z, tz} {
+				fset(&vp, new(big.Int).Add(v, big.NewInt(1)))
+				dst := []*curve25519.Bignum25519{&g.x, &g.y, &g.z, &g.t}[i]
+				curve25519.Sub(dst, &vp, &one)
+			}
+		}
+		return g
+	}
+	for pi, p := range pts {
+		for zi, z := range zs {
+			for u := 0; u < 3; u++ {
+				if !c.Take() {
+					continue
+				}
+				c.Distinct(fmt.Sprintf("c09g %d %d %d", pi, zi, u), true)
+				g := mkRep(p, z, u)
+				want := p.IsIdentity()
+				got := IsNeutralVartime(&g)
+				c.Step(1)
+				if want {
+					c.Class("neutral/true")
+				} else {
+					c.Class("neutral/false")
+				}
+				if got != want {
+					c.Violation(fmt.Sprintf("C09 IsNeutralVartime want=%v", want), fmt.Sprintf("IsNeutralVartime on a representation (Z=%s, unreduced form %d) of %x returned %v", z, u, p.Encode(), got), map[string]interface{}{"point": ref.Hex(p.Encode()), "z": z.String(), "form": u})
+				}
+				if u != 0 {
+					// group operations take points whose coordinates are reduced field elements (every
+					// point the library builds is); only the identity test (Contract-based) is
+					// demanded on unreduced limbs
+					continue
+				}
+				var q Ge25519
+				CofactorMultiply(&q, &g)
+				var out [32]byte
+				Pack(out[:], &q)
+				c.Step(1)
+				c.Class("cofactor")
+				w8 := p.MulInt(8)
+				if !bytes.Equal(out[:], w8.Encode()) || IsNeutralVartime(&q) != w8.IsIdentity() {
+					c.Violation("C09 CofactorMultiply", fmt.Sprintf("CofactorMultiply of a representation (Z=%s, form %d) of %x is not [8]P, or its identity test is wrong", z, u, p.Encode()), map[string]interface{}{"point": ref.Hex(p.Encode()), "z": z.String(), "form": u, "observed": ref.Hex(out[:]), "expected": ref.Hex(w8.Encode())})
+				}
+				// CofactorEqual(P, Q): true iff P - Q is torsion
+				other := pts[(pi*7+3)%len(pts)]
+				h := mkRep(other, zs[(zi+1)%len(zs)], 0)
+				ce := CofactorEqual(&g, &h)
+				c.Step(1)
+				if ce != p.Sub(other).IsSmallOrder() {
+					c.Violation("C09 CofactorEqual", fmt.Sprintf("CofactorEqual(%x, %x) = %v", p.Encode(), other.Encode(), ce), map[string]interface{}{"p": ref.Hex(p.Encode()), "q": ref.Hex(other.Encode())})
+				}
+			}
+		}
+	}
 }
